@@ -129,6 +129,25 @@ def main(tier):
             ck.violation("crash:%s:%s" % (k2, frame.group(1) if frame else "?"), "front end died (%s) on input #%d of `%s`:\n%r\n%s" % (k2, n, " ".join(args[:4]), inp.decode("latin-1"), err[-1200:]),
                          {"tool": "front_mc-file", "input": inp.decode("latin-1")})
         runs.append({"enum": " ".join(os.path.basename(a) for a in args), "inputs": sum(s["inputs"] for s in sums), "crashes": len(crashes)})
+    # (hunt C13/d3) what the entry path names: a directory, nothing, an empty file, a file of spaces - one categorised diagnostic or a run,
+    # never a raw C++ message
+    import vdrv
+    nentry = 0
+    for label, files, mk, path in (("directory", {"d/keep.txt": "x"}, "", "d"), ("directory-named-like-source", {"p.bloch/keep.txt": "x"}, "", "p.bloch"), ("missing", {"other.bloch": "function main() -> void { }\n"}, "", "nofile.bloch"),
+                                   ("empty-file", {"e.bloch": ""}, "", "e.bloch"), ("blank-file", {"b.bloch": "  \n\n"}, "", "b.bloch"), ("valid", {"v.bloch": "function main() -> void { }\n"}, "", "v.bloch"),
+                                   ("directory-with-trailing-slash", {"d2/keep.txt": "x"}, "", "d2/")):
+        r = vdrv.run_job({"id": "e", "kind": "cli", "opts": {"gc": "own"}, "argv": ["bloch", path], "files": files})
+        nentry += 1
+        if r.crash or r.rec is None:
+            ck.violation("entry:%s:died" % label, "the CLI died on entry path %r: %s %s" % (path, r.crash, r["fd2"][:300]), {"tool": "text", "case": "bloch " + path})
+            continue
+        err = r.rec["stderr"]
+        cats = re.findall(r"(Lexical|Parse|Semantic|Runtime) error", err)
+        if r.rec["rc"] == 0:
+            continue
+        if len(cats) != 1:
+            ck.violation("entry:%s:uncategorised" % label, "entry path %r (%s): exit %d with %d categorised diagnostics instead of one: %r" % (path, label, r.rec["rc"], len(cats), err[-300:]), {"tool": "text", "case": "bloch " + path})
+    tot["inputs"] += nentry
     ck.assumptions += ["'never hangs' = terminates within 5 s per input (3+ orders of magnitude above the mean)",
                        "UBSan pointer-overflow reports from forming (not reading) m_tokens[m_current-1] are not counted; ASan reports and signals are"]
     ck.finish({"evaluations": tot["inputs"], "distinct_nontrivial": tot["distinct_outcomes"],
